@@ -147,6 +147,9 @@ def run(ctx: Ctx):
         elif o["rc2"] != 0:
             ctx.report("after a create session the tests fail with --inline-snapshot=disable", {"kind": "session", "source": p["source"], "after": o["after"], "output": o["tail2"]})
     ctx.coverage["oracle"]["session_pairs"] = len(sp)
+    # the same module under several names in one create session: every copy is filled as if it were alone
+    from .. import twins
+    twins.check(ctx, "C01", [p["source"] for p in sp[:2 if not ctx.thorough else 10]], flag_sets=(("create",),))
     # C2: the compared object is mutated afterwards (loops over one call site): what is created is what was compared
     from . import c17
     ms = [c17.gen_sched(ctx.rng, i) for i in range(18 if not ctx.thorough else 180)]
@@ -187,6 +190,9 @@ def run(ctx: Ctx):
 
 
 def replay(ctx: Ctx, data):
+    if isinstance(data.get("case"), dict) and data["case"].get("kind") == "twins":
+        from .. import twins
+        return twins.replay(data["case"])
     if isinstance(data.get("case"), dict) and data["case"].get("kind") == "imports":
         from .. import importscorr as ic
         return ic.replay_case(data["case"])
